@@ -4,6 +4,7 @@ package main
 // the real committee keeper, one self-contained case per committee-module operation.
 
 import (
+	"encoding/json"
 	"fmt"
 	"sort"
 	"strconv"
@@ -13,15 +14,22 @@ import (
 
 	abci "github.com/cometbft/cometbft/abci/types"
 	sdk "github.com/cosmos/cosmos-sdk/types"
+	authtypes "github.com/cosmos/cosmos-sdk/x/auth/types"
+	govtypes "github.com/cosmos/cosmos-sdk/x/gov/types"
 	govv1beta1 "github.com/cosmos/cosmos-sdk/x/gov/types/v1beta1"
 	"github.com/cosmos/cosmos-sdk/x/params"
 	paramsproposal "github.com/cosmos/cosmos-sdk/x/params/types/proposal"
+	upgradekeeper "github.com/cosmos/cosmos-sdk/x/upgrade/keeper"
 	upgradetypes "github.com/cosmos/cosmos-sdk/x/upgrade/types"
 
 	"github.com/kava-labs/kava/app"
 	"github.com/kava-labs/kava/x/committee"
 	ckeeper "github.com/kava-labs/kava/x/committee/keeper"
 	ctypes "github.com/kava-labs/kava/x/committee/types"
+	communitykeeper "github.com/kava-labs/kava/x/community/keeper"
+	communitytypes "github.com/kava-labs/kava/x/community/types"
+	hardtypes "github.com/kava-labs/kava/x/hard/types"
+	pricefeedtypes "github.com/kava-labs/kava/x/pricefeed/types"
 
 	c "kavaverif/harness/common"
 	"kavaverif/harness/kapp"
@@ -32,13 +40,42 @@ const nAcc = 6
 
 var lifeParamKeys = []string{"SurplusThreshold", "DebtThreshold"}
 
+// Shared mutable state that proposal handlers and permission checks read (so that enacting one proposal
+// can invalidate another that finishes in the same block):
+//   - the community pool (x/distribution fee pool) and the Kava Lend deposit of the x/community module account,
+//     moved by CommunityPoolLendDeposit / CommunityPoolLendWithdraw proposals (route "community");
+//   - the cdp DebtParam record (two numeric fields), replaced as a WHOLE by parameter-change proposals that a
+//     committee may be allowed to submit for ONE field only (AllowedParamsChange with a single allowed attribute).
+var lendDenoms = []string{"ukava", "usdx"}
+
+var debtFields = map[string]string{"floor": "debt_floor", "conv": "conversion_factor"}
+
 type lifeWorld struct {
 	tApp  app.TestApp
 	base  sdk.Context
 	addrs []sdk.AccAddress
+	macc  sdk.AccAddress // x/community module account: holds the lend position
 }
 
 var worldMu sync.Mutex // app.NewTestApp writes the global sdk config: build worlds one at a time
+
+func lendGenesis(tApp app.TestApp) []app.GenesisState {
+	hardGS := hardtypes.DefaultGenesisState()
+	pfGS := pricefeedtypes.DefaultGenesisState()
+	for _, d := range lendDenoms {
+		market := d + ":usd"
+		hardGS.Params.MoneyMarkets = append(hardGS.Params.MoneyMarkets, hardtypes.NewMoneyMarket(d,
+			hardtypes.NewBorrowLimit(false, sdk.NewDec(1e15), sdk.MustNewDecFromStr("0.6")), market, sdk.NewInt(1e6),
+			hardtypes.NewInterestRateModel(sdk.MustNewDecFromStr("0.05"), sdk.MustNewDecFromStr("2"), sdk.MustNewDecFromStr("0.8"), sdk.MustNewDecFromStr("10")),
+			sdk.MustNewDecFromStr("0.05"), sdk.ZeroDec()))
+		pfGS.Params.Markets = append(pfGS.Params.Markets, pricefeedtypes.Market{MarketID: market, BaseAsset: d, QuoteAsset: "usd", Oracles: []sdk.AccAddress{}, Active: true})
+		pfGS.PostedPrices = append(pfGS.PostedPrices, pricefeedtypes.PostedPrice{MarketID: market, OracleAddress: sdk.AccAddress{}, Price: sdk.OneDec(), Expiry: kapp.GenTime.Add(1000000 * time.Hour)})
+	}
+	return []app.GenesisState{
+		{hardtypes.ModuleName: tApp.AppCodec().MustMarshalJSON(&hardGS)},
+		{pricefeedtypes.ModuleName: tApp.AppCodec().MustMarshalJSON(&pfGS)},
+	}
+}
 
 func mkLifeWorld() *lifeWorld {
 	worldMu.Lock()
@@ -49,10 +86,24 @@ func mkLifeWorld() *lifeWorld {
 		coins[i] = sdk.NewCoins(sdk.NewInt64Coin(tallyDenom, int64(100*(i+1))), sdk.NewInt64Coin("ukava", 1000))
 	}
 	tApp := app.NewTestApp()
-	gen := app.NewFundedGenStateWithCoins(tApp.AppCodec(), coins, addrs)
-	tApp.InitializeFromGenesisStatesWithTime(kapp.GenTime, gen)
+	gen := append([]app.GenesisState{app.NewFundedGenStateWithCoins(tApp.AppCodec(), coins, addrs)}, lendGenesis(tApp)...)
+	tApp.InitializeFromGenesisStatesWithTime(kapp.GenTime, gen...)
 	ctx := tApp.NewContext(false, tmHeader(tApp.LastBlockHeight()+1, kapp.GenTime))
-	return &lifeWorld{tApp: tApp, base: ctx, addrs: addrs}
+	w := &lifeWorld{tApp: tApp, base: ctx, addrs: addrs, macc: tApp.GetAccountKeeper().GetModuleAddress(communitytypes.ModuleAccountName)}
+	// community pool 5000 usdx + 3000 ukava, of which 1000 usdx + 400 ukava are already lent out by the community module
+	pool := sdk.NewCoins(sdk.NewInt64Coin("usdx", 6000), sdk.NewInt64Coin("ukava", 3400))
+	funder := app.RandomAddress()
+	if err := tApp.FundAccount(ctx, funder, pool); err != nil {
+		panic(err)
+	}
+	if err := tApp.GetDistrKeeper().FundCommunityPool(ctx, pool, funder); err != nil {
+		panic(err)
+	}
+	if err := communitykeeper.HandleCommunityPoolLendDepositProposal(ctx, tApp.GetCommunityKeeper(),
+		communitytypes.NewCommunityPoolLendDepositProposal("t", "d", sdk.NewCoins(sdk.NewInt64Coin("usdx", 1000), sdk.NewInt64Coin("ukava", 400)))); err != nil {
+		panic(err)
+	}
+	return w
 }
 
 // mirror of what the harness knows it stored (contents by proposal id; committee descriptions)
@@ -60,7 +111,7 @@ type comDesc struct {
 	id       uint64
 	token    bool
 	members  []int
-	perm     string // G T U K<key>
+	perm     string // G T U L K<key> F<floor|conv>
 	thr, quo sdk.Dec
 	dur      time.Duration
 	fptp     bool
@@ -91,6 +142,11 @@ func (w *lifeWorld) build(d comDesc) ctypes.Committee {
 		perm = &ctypes.TextPermission{}
 	case d.perm == "U":
 		perm = &ctypes.SoftwareUpgradePermission{}
+	case d.perm == "L":
+		perm = &ctypes.CommunityPoolLendWithdrawPermission{}
+	case d.perm[0] == 'F': // one field of the cdp DebtParam record
+		perm = &ctypes.ParamsChangePermission{AllowedParamsChanges: ctypes.AllowedParamsChanges{{Subspace: "cdp", Key: "DebtParam",
+			SingleSubparamAllowedAttrs: []string{debtFields[d.perm[1:]]}}}}
 	default:
 		perm = &ctypes.ParamsChangePermission{AllowedParamsChanges: ctypes.AllowedParamsChanges{{Subspace: "cdp", Key: d.perm[1:]}}}
 	}
@@ -113,11 +169,13 @@ type lifeSeq struct {
 	ctx      sdk.Context
 	k        ckeeper.Keeper
 	msg      ctypes.MsgServer
-	gov      govv1beta1.Handler // the committee module's gov-routed handler (committee change / delete)
-	pgov     govv1beta1.Handler // params handler as governance would call it
+	gov      govv1beta1.Handler    // the committee module's gov-routed handler (committee change / delete)
+	pgov     govv1beta1.Handler    // params handler as governance would call it
+	upk      *upgradekeeper.Keeper // the harness's own upgrade keeper over the same store (block replay only)
 	coms     map[uint64]comDesc
 	contents map[uint64]string
-	cast     map[[2]uint64]string // (proposal, voter index) -> option the harness cast last; never read from the store
+	pubs     map[uint64]ctypes.PubProposal // the content objects as submitted (block replay)
+	cast     map[[2]uint64]string          // (proposal, voter index) -> option the harness cast last; never read from the store
 	out      *c.Out
 	r        *c.Rng
 }
@@ -133,6 +191,69 @@ func (s *lifeSeq) idx(a sdk.AccAddress) int {
 
 type lifeObs struct {
 	coms, props, votes, next, ext string
+}
+
+// debtDoc reads the stored cdp DebtParam record as a JSON object
+func (s *lifeSeq) debtDoc(ctx sdk.Context) map[string]interface{} {
+	ss, _ := s.w.tApp.GetParamsKeeper().GetSubspace("cdp")
+	var m map[string]interface{}
+	if err := json.Unmarshal(ss.GetRaw(ctx, []byte("DebtParam")), &m); err != nil {
+		panic("c17: stored DebtParam is not an object: " + err.Error())
+	}
+	return m
+}
+
+func (s *lifeSeq) debtVals(ctx sdk.Context) (floor, conv string) {
+	m := s.debtDoc(ctx)
+	floor, _ = m["debt_floor"].(string)
+	conv, _ = m["conversion_factor"].(string)
+	return
+}
+
+func (s *lifeSeq) poolOf(ctx sdk.Context, d string) int64 {
+	return s.w.tApp.GetDistrKeeper().GetFeePool(ctx).CommunityPool.AmountOf(d).TruncateInt().Int64()
+}
+
+func (s *lifeSeq) depOf(ctx sdk.Context, d string) int64 {
+	dep, _ := s.w.tApp.GetHardKeeper().GetDeposit(ctx, s.w.macc)
+	return dep.Amount.AmountOf(d).Int64()
+}
+
+// extObs: the state outside the committee store that handlers, permission checks and tallies read:
+// height; two cdp params; upgrade plan; tally-denom balances and supply; community pool, lend deposit and bank
+// balance of the community module account; the two numeric fields of the cdp DebtParam record
+func (s *lifeSeq) extObs(ctx sdk.Context) string {
+	var pv []string
+	ss, _ := s.w.tApp.GetParamsKeeper().GetSubspace("cdp")
+	for _, key := range lifeParamKeys {
+		raw := strings.Trim(string(ss.GetRaw(ctx, []byte(key))), `"`)
+		pv = append(pv, key+"="+raw)
+	}
+	plan := int64(0)
+	if bz := ctx.KVStore(s.w.tApp.GetKVStoreKey(upgradetypes.StoreKey)).Get(upgradetypes.PlanKey()); bz != nil {
+		var p upgradetypes.Plan
+		s.w.tApp.AppCodec().MustUnmarshal(bz, &p)
+		plan = p.Height
+	}
+	bk := s.w.tApp.GetBankKeeper()
+	bals := make([]string, nAcc)
+	for i, a := range s.w.addrs {
+		bals[i] = bk.GetBalance(ctx, a, tallyDenom).Amount.String()
+	}
+	var kv []string
+	for _, d := range lendDenoms {
+		kv = append(kv, fmt.Sprintf("pool.%s=%d", d, s.poolOf(ctx, d)))
+	}
+	for _, d := range lendDenoms {
+		kv = append(kv, fmt.Sprintf("dep.%s=%d", d, s.depOf(ctx, d)))
+	}
+	for _, d := range lendDenoms {
+		kv = append(kv, fmt.Sprintf("macc.%s=%s", d, bk.GetBalance(ctx, s.w.macc, d).Amount.String()))
+	}
+	floor, conv := s.debtVals(ctx)
+	kv = append(kv, "debt.floor="+floor, "debt.conv="+conv)
+	return fmt.Sprintf("%d;%s;%d;%s;%s;%s", ctx.BlockHeight(), strings.Join(pv, ","), plan, strings.Join(bals, ","),
+		bk.GetSupply(ctx, tallyDenom).Amount.String(), strings.Join(kv, ","))
 }
 
 func (s *lifeSeq) observe(ctx sdk.Context) lifeObs {
@@ -179,25 +300,7 @@ func (s *lifeSeq) observe(ctx sdk.Context) lifeObs {
 		panic(err)
 	}
 	o.next = strconv.FormatUint(next, 10)
-	// external state: height, two cdp params, upgrade plan, tally-denom balances and supply
-	var pv []string
-	ss, _ := s.w.tApp.GetParamsKeeper().GetSubspace("cdp")
-	for _, key := range lifeParamKeys {
-		raw := strings.Trim(string(ss.GetRaw(ctx, []byte(key))), `"`)
-		pv = append(pv, key+"="+raw)
-	}
-	plan := int64(0)
-	if bz := ctx.KVStore(s.w.tApp.GetKVStoreKey(upgradetypes.StoreKey)).Get(upgradetypes.PlanKey()); bz != nil {
-		var p upgradetypes.Plan
-		s.w.tApp.AppCodec().MustUnmarshal(bz, &p)
-		plan = p.Height
-	}
-	bk := s.w.tApp.GetBankKeeper()
-	bals := make([]string, nAcc)
-	for i, a := range s.w.addrs {
-		bals[i] = bk.GetBalance(ctx, a, tallyDenom).Amount.String()
-	}
-	o.ext = fmt.Sprintf("%d;%s;%d;%s;%s", ctx.BlockHeight(), strings.Join(pv, ","), plan, strings.Join(bals, ","), bk.GetSupply(ctx, tallyDenom).Amount.String())
+	o.ext = s.extObs(ctx)
 	return o
 }
 
@@ -242,6 +345,14 @@ func closeEvents(em *sdk.EventManager) string {
 	return strings.Join(out, ",")
 }
 
+func outcomesSig(ev string) string {
+	oc := map[string]bool{}
+	for _, e := range strings.Split(ev, ",") {
+		oc[e[strings.Index(e, ":")+1:]] = true
+	}
+	return strings.Join(c.SortedKeys(oc), "+")
+}
+
 // exec runs one committee-module operation the way baseapp runs a message and emits the case line.
 func (s *lifeSeq) exec(sig, op string, f func(ctx sdk.Context) error) kapp.Class {
 	pre := s.observe(s.ctx)
@@ -257,20 +368,18 @@ func (s *lifeSeq) exec(sig, op string, f func(ctx sdk.Context) error) kapp.Class
 	if sig != "" {
 		full = sig + "|" + string(cls)
 		if ev != "-" {
-			oc := map[string]bool{}
-			for _, e := range strings.Split(ev, ",") {
-				oc[e[strings.Index(e, ":")+1:]] = true
-			}
-			full += "|" + strings.Join(c.SortedKeys(oc), "+")
+			full += "|" + outcomesSig(ev)
 		}
 	}
-	s.out.Case(full, "c17.life", pre.coms, pre.props, pre.votes, pre.next, pre.ext, op, "=>", string(cls), post.props, post.votes, post.next, post.ext, ev, castPre)
+	s.out.Case(full, "c17.life", pre.coms, pre.props, pre.votes, pre.next, pre.ext, op, "=>", string(cls), post.props, post.votes, post.next, post.ext, ev, castPre, "-", "-")
 	s.out.Note("life-" + strings.Fields(op)[0] + "-" + string(cls))
 	return cls
 }
 
 func (s *lifeSeq) now() int64 { return s.ctx.BlockTime().UnixNano() }
 
+// content builds the proposal content of an encoded description (on the current state: a DebtParam document takes
+// the fields the harness does not vary from the stored record)
 func (s *lifeSeq) content(enc string) ctypes.PubProposal {
 	switch enc[0] {
 	case 't':
@@ -285,19 +394,104 @@ func (s *lifeSeq) content(enc string) ctypes.PubProposal {
 		d := comDesc{id: 99, members: []int{0}, perm: "G", thr: sdk.MustNewDecFromStr("0.5"), quo: sdk.ZeroDec(), dur: time.Hour}
 		p := ctypes.MustNewCommitteeChangeProposal("t", "d", s.w.build(d))
 		return &p
+	case 'D', 'W': // community pool -> Kava Lend deposit (governance only: the deposit proposal is no PubProposal of the
+		// committee module) / withdrawal of the community module's lend position
+		kv := strings.SplitN(enc[1:], "=", 2)
+		amt, _ := strconv.ParseInt(kv[1], 10, 64)
+		coins := sdk.Coins{sdk.Coin{Denom: kv[0], Amount: sdk.NewInt(amt)}}
+		if enc[0] == 'D' {
+			return communitytypes.NewCommunityPoolLendDepositProposal("t", "d", coins)
+		}
+		return communitytypes.NewCommunityPoolLendWithdrawProposal("t", "d", coins)
+	case 'd': // the WHOLE cdp DebtParam record: d<floor>_<conv>
+		fc := strings.SplitN(enc[1:], "_", 2)
+		m := s.debtDoc(s.ctx)
+		m["debt_floor"], m["conversion_factor"] = fc[0], fc[1]
+		bz, err := json.Marshal(m)
+		if err != nil {
+			panic(err)
+		}
+		return paramsproposal.NewParameterChangeProposal("t", "d", []paramsproposal.ParamChange{{Subspace: "cdp", Key: "DebtParam", Value: string(bz)}})
 	}
 	panic("c17: content")
 }
 
+// ownHandler: the harness's own routing of a stored proposal's content to the module handlers (used for the block
+// replay and for governance-routed changes; independent of the committee keeper's router and enactment code)
+func (s *lifeSeq) ownHandler(ctx sdk.Context, content ctypes.PubProposal) error {
+	switch p := content.(type) {
+	case *govv1beta1.TextProposal:
+		return nil
+	case *upgradetypes.SoftwareUpgradeProposal:
+		return s.upk.ScheduleUpgrade(ctx, p.Plan)
+	case *paramsproposal.ParameterChangeProposal:
+		return s.pgov(ctx, p)
+	case *communitytypes.CommunityPoolLendDepositProposal:
+		return communitykeeper.HandleCommunityPoolLendDepositProposal(ctx, s.w.tApp.GetCommunityKeeper(), p)
+	case *communitytypes.CommunityPoolLendWithdrawProposal:
+		return communitykeeper.HandleCommunityPoolLendWithdrawProposal(ctx, s.w.tApp.GetCommunityKeeper(), p)
+	}
+	return fmt.Errorf("c17: no route for %T", content)
+}
+
+func (s *lifeSeq) genLend(kind byte) string {
+	r := s.r
+	d := c.Pick(r, lendDenoms)
+	if r.Chance(4) {
+		d = "bnb" // no money market, nothing in the pool
+	}
+	var amt int64
+	if kind == 'W' {
+		dep := s.depOf(s.ctx, d)
+		amt = c.Pick(r, []int64{dep, dep, dep + 100, dep/2 + 1, dep/2 + 1, dep/3 + 1, 1, 0})
+	} else {
+		pool := s.poolOf(s.ctx, d)
+		amt = c.Pick(r, []int64{pool, pool, pool/2 + 1, pool/2 + 1, pool/3 + 1, pool / 4, 1, pool + 1, 0})
+	}
+	return fmt.Sprintf("%c%s=%d", kind, d, amt)
+}
+
+// genDebt: a DebtParam document equal to the stored record except for one field ("floor" / "conv"), or both ("")
+func (s *lifeSeq) genDebt(field string) string {
+	r := s.r
+	floor, conv := s.debtVals(s.ctx)
+	v := func() string {
+		if r.Chance(5) {
+			return "x" // not a number: the handler fails
+		}
+		return c.Pick(r, []string{"7", strconv.Itoa(r.Intn(1000000) + 1), strconv.Itoa(r.Intn(1000) + 1), "0"})
+	}
+	switch field {
+	case "floor":
+		floor = v()
+	case "conv":
+		conv = v()
+	default:
+		floor, conv = v(), v()
+	}
+	if r.Chance(6) { // a stale document: the other field is not what the store holds
+		if field == "floor" {
+			conv = v()
+		} else {
+			floor = v()
+		}
+	}
+	return "d" + floor + "_" + conv
+}
+
 func (s *lifeSeq) genContent(perm string) string {
 	r := s.r
-	pick := r.Intn(10)
+	pick := r.Intn(14)
 	if r.Chance(70) { // mostly something the committee may enact
 		switch {
 		case perm == "T":
 			pick = 0
 		case perm == "U":
 			pick = 3
+		case perm == "L":
+			return s.genLend('W')
+		case strings.HasPrefix(perm, "F"):
+			return s.genDebt(perm[1:])
 		case strings.HasPrefix(perm, "K"):
 			v := c.Pick(r, []string{"7", "1", strconv.Itoa(r.Intn(1000000) + 1), strconv.Itoa(r.Intn(1000000) + 1), "0"})
 			return "p" + perm[1:] + "=" + v
@@ -314,12 +508,18 @@ func (s *lifeSeq) genContent(perm string) string {
 			return "c"
 		}
 		fallthrough
-	default:
+	case 6, 7, 8, 9:
 		key := c.Pick(r, lifeParamKeys)
 		v := c.Pick(r, []string{"7", "1", strconv.Itoa(r.Intn(1000000) + 1), "0", "-5", "x"})
 		return "p" + key + "=" + v
+	case 10, 11:
+		return s.genLend('W')
+	default:
+		return s.genDebt(c.Pick(r, []string{"floor", "conv", ""}))
 	}
 }
+
+var lifePerms = []string{"G", "G", "G", "T", "U", "K" + lifeParamKeys[0], "K" + lifeParamKeys[1], "L", "Ffloor", "Fconv"}
 
 func (s *lifeSeq) genCommittee(id uint64) comDesc {
 	r := s.r
@@ -329,7 +529,7 @@ func (s *lifeSeq) genCommittee(id uint64) comDesc {
 	for i := 0; i < n; i++ {
 		d.members = append(d.members, (perm+i)%nAcc)
 	}
-	d.perm = c.Pick(r, []string{"G", "G", "T", "U", "K" + lifeParamKeys[0], "K" + lifeParamKeys[1]})
+	d.perm = c.Pick(r, lifePerms)
 	d.thr = sdk.MustNewDecFromStr(c.Pick(r, []string{"0.5", "0.5", "0.667", "1", "0.333333333333333333", "0.25", "0.25", "0.000000000000000001", "0.75"}))
 	d.dur = time.Duration(c.Pick(r, []int64{0, 1, 1000, int64(time.Hour), int64(time.Hour), int64(3 * time.Second), int64(3 * time.Second), int64(3 * time.Second)}))
 	d.fptp = r.Bool()
@@ -340,21 +540,292 @@ func (s *lifeSeq) genCommittee(id uint64) comDesc {
 	return d
 }
 
+func (s *lifeSeq) comIDs() []uint64 {
+	ids := make([]uint64, 0, len(s.coms))
+	for id := range s.coms {
+		ids = append(ids, id)
+	}
+	sort.Slice(ids, func(i, j int) bool { return ids[i] < ids[j] })
+	return ids
+}
+
+func (s *lifeSeq) setCom(d comDesc) {
+	p := ctypes.MustNewCommitteeChangeProposal("t", "d", s.w.build(d))
+	// closing pending proposals makes their contents leave the store: keep the mirror in step afterwards
+	if s.exec("setcom", "setcom "+d.enc(), func(cx sdk.Context) error { return s.gov(cx, &p) }) == kapp.OK {
+		s.coms[d.id] = d
+	}
+}
+
+// submit: MsgSubmitProposal; returns the new proposal's id when accepted
+func (s *lifeSeq) submit(cid uint64, proposer int, cont string) (uint64, bool) {
+	next, _ := s.k.GetNextProposalID(s.ctx)
+	prop := s.content(cont)
+	op := fmt.Sprintf("submit %d %d %d %s", s.now(), proposer, cid, cont)
+	s.contents[next] = cont
+	cls := s.exec("submit:"+cont[:1], op, func(cx sdk.Context) error {
+		m, err := ctypes.NewMsgSubmitProposal(prop, s.w.addrs[proposer], cid)
+		if err != nil {
+			return err
+		}
+		_, err = s.msg.SubmitProposal(sdk.WrapSDKContext(cx), m)
+		return err
+	})
+	if cls != kapp.OK {
+		delete(s.contents, next)
+		return 0, false
+	}
+	s.pubs[next] = prop
+	return next, true
+}
+
+func (s *lifeSeq) vote(sig string, pid uint64, voter int, vt ctypes.VoteType, vs string) {
+	op := fmt.Sprintf("vote %d %d %d %s", s.now(), pid, voter, vs)
+	if s.exec(sig, op, func(cx sdk.Context) error {
+		_, err := s.msg.Vote(sdk.WrapSDKContext(cx), ctypes.NewMsgVote(s.w.addrs[voter], pid, vt))
+		return err
+	}) == kapp.OK {
+		s.cast[[2]uint64{pid, uint64(voter)}] = vs
+	}
+}
+
+// replay: the harness's own replay of the block on a copy of the pre-state.  For every proposal the begin blocker
+// closed, in the order it closed them: the state outside the committee store AT ITS TURN (after the harness applied
+// the contents of the proposals closed as Passed before it, through the module handlers directly), the verdict of the
+// real Committee.HasPermissionsFor on that state, and whether the content's handler runs on that state.
+// Returns the turn records and the external state at the end of the replay.
+func (s *lifeSeq) replay(rctx sdk.Context, pre map[uint64]ctypes.Proposal, ev string) (string, string) {
+	if ev == "-" {
+		return "-", s.extObs(rctx)
+	}
+	var turns []string
+	for _, e := range strings.Split(ev, ",") {
+		i := strings.Index(e, ":")
+		pid, _ := strconv.ParseUint(e[:i], 10, 64)
+		oc := e[i+1:]
+		p, known := pre[pid]
+		content := s.pubs[pid]
+		if !known || content == nil {
+			continue // judged by C17_enact_once (closed-unknown-proposal)
+		}
+		ext := s.extObs(rctx)
+		perm := "-"
+		if com, found := s.k.GetCommittee(rctx, p.CommitteeID); found {
+			perm = "n"
+			if panicked, _ := c.Recover(func() {
+				if com.HasPermissionsFor(rctx, s.w.tApp.AppCodec(), s.w.tApp.GetParamsKeeper(), content) {
+					perm = "y"
+				}
+			}); panicked {
+				perm = "p"
+			}
+		}
+		dry := "ok" // the handler on a branch of the state at its turn, discarded
+		cc, _ := rctx.CacheContext()
+		if p2, _ := c.Recover(func() {
+			if err := s.ownHandler(cc, content); err != nil {
+				dry = "err"
+			}
+		}); p2 {
+			dry = "err"
+		}
+		if oc == ctypes.Passed.String() {
+			// apply it (atomically: a failing handler leaves the replay state as it was)
+			kapp.Exec(rctx, func(cx sdk.Context) error { return s.ownHandler(cx, content) })
+		}
+		turns = append(turns, fmt.Sprintf("%d@%s@%s@%s@%s", pid, oc, perm, dry, ext))
+	}
+	if len(turns) == 0 {
+		return "-", s.extObs(rctx)
+	}
+	return strings.Join(turns, "|"), s.extObs(rctx)
+}
+
+// begin: next block — time moves by dt, the committee begin blocker runs (not a message: a panic here halts the chain)
+func (s *lifeSeq) begin(dt int64) (panicked bool) {
+	s.ctx = s.ctx.WithBlockHeight(s.ctx.BlockHeight() + 1).WithBlockTime(s.ctx.BlockTime().Add(time.Duration(dt)))
+	pre := s.observe(s.ctx)
+	preProps := map[uint64]ctypes.Proposal{}
+	for _, p := range s.k.GetProposals(s.ctx) {
+		preProps[p.ID] = p
+	}
+	// the block runs on a branch of the state (as on the chain: deliver state), written back afterwards, so that the
+	// harness can replay the block on the same pre-state
+	bctx, write := s.ctx.CacheContext()
+	em := sdk.NewEventManager()
+	panicked, msg := c.Recover(func() { committee.BeginBlocker(bctx.WithEventManager(em), abci.RequestBeginBlock{}, s.k) })
+	ev := closeEvents(em)
+	rctx, _ := s.ctx.CacheContext()
+	turns, rext := s.replay(rctx, preProps, ev)
+	write()
+	cls := "ok"
+	if panicked {
+		cls = "panic"
+		if len(msg) > 160 {
+			msg = msg[:160]
+		}
+		s.out.Violation(fmt.Sprintf("C17 begin block halts the chain (panic while processing proposals; closed before the panic: %s): %s", ev, msg))
+	}
+	post := s.observe(s.ctx)
+	same := "-"
+	if !panicked {
+		same = "same"
+		if rext != post.ext {
+			same = "diff:" + rext
+		}
+	}
+	sig := "begin|" + cls
+	if ev != "-" {
+		sig += "|" + outcomesSig(ev)
+		if n := strings.Count(ev, ",") + 1; n > 1 {
+			sig += fmt.Sprintf("|closed=%d", min(n, 3))
+			s.out.Note("life-begin-several-closed")
+			if strings.Count(ev, "Passed") > 1 {
+				s.out.Note("life-begin-several-enacted")
+			}
+			if strings.Contains(ev, "Passed") && strings.Contains(ev[strings.Index(ev, "Passed"):], "Invalid") {
+				s.out.Note("life-begin-invalid-after-enactment")
+			}
+		}
+	}
+	s.out.Case(sig, "c17.life", pre.coms, pre.props, pre.votes, pre.next, pre.ext, fmt.Sprintf("begin %d", s.now()), "=>", cls, post.props, post.votes, post.next, post.ext, ev, s.castEnc(), turns, same)
+	s.out.Note("life-begin-" + cls)
+	return panicked
+}
+
+// ensureCom returns a committee holding one of the given permissions, creating (or replacing) one through the
+// gov-routed committee change when there is none
+func (s *lifeSeq) ensureCom(perms []string, avoid uint64) uint64 {
+	var cands []uint64
+	for _, id := range s.comIDs() {
+		for _, p := range perms {
+			if s.coms[id].perm == p && id != avoid {
+				cands = append(cands, id)
+			}
+		}
+	}
+	if len(cands) > 0 {
+		return c.Pick(s.r, cands)
+	}
+	id := uint64(s.r.Intn(4) + 1)
+	if id == avoid {
+		id = id%4 + 1
+	}
+	d := s.genCommittee(id)
+	d.perm = c.Pick(s.r, perms)
+	d.dur = time.Duration(c.Pick(s.r, []int64{1000, int64(3 * time.Second), int64(3 * time.Second), int64(time.Hour)}))
+	s.setCom(d)
+	if _, ok := s.coms[id]; ok && s.coms[id].perm == d.perm {
+		return id
+	}
+	return 0
+}
+
+// burst: several proposals submitted in the same block (to one committee, or to committees of equal or different
+// durations), voted through in the same block, then the block in which they all finish.  The contents are chosen
+// against the state at submission, each valid on its own: withdrawals of the same lend position,
+// whole-record DebtParam changes of different fields — so that enacting the first can invalidate the
+// handler or the permission of the next.
+func (s *lifeSeq) burst() (panicked bool) {
+	r := s.r
+	theme := r.Intn(5)
+	n := 2 + r.Intn(2)
+	type sub struct {
+		pid, cid uint64
+	}
+	var subs []sub
+	var first uint64
+	swap := r.Intn(2)
+	for i := 0; i < n; i++ {
+		var cid uint64
+		var cont string
+		avoid := uint64(0)
+		if r.Chance(50) {
+			avoid = first // another committee than the first proposal's
+		}
+		switch theme {
+		case 0, 1: // withdrawals of the same lend position
+			cid = s.ensureCom([]string{"L", "G"}, avoid)
+			cont = s.genLend('W')
+		case 2, 3: // whole-record changes of different fields of one parameter
+			f := []string{"floor", "conv"}[(i+swap)%2]
+			if r.Chance(25) {
+				cid = s.ensureCom([]string{"G"}, avoid)
+			} else {
+				cid = s.ensureCom([]string{"F" + f}, avoid)
+			}
+			cont = s.genDebt(f)
+		default: // whatever the committee may enact
+			ids := s.comIDs()
+			if len(ids) == 0 {
+				return false
+			}
+			cid = c.Pick(r, ids)
+			cont = s.genContent(s.coms[cid].perm)
+		}
+		d, ok := s.coms[cid]
+		if !ok {
+			continue
+		}
+		if first == 0 {
+			first = cid
+		}
+		if pid, ok := s.submit(cid, c.Pick(r, d.members), cont); ok {
+			subs = append(subs, sub{pid, cid})
+		}
+	}
+	// the votes, same block: every member (member committees) / the heaviest holders (token committees)
+	for _, sb := range subs {
+		d, ok := s.coms[sb.cid]
+		if !ok {
+			continue
+		}
+		voters := d.members
+		if d.token {
+			voters = []int{5, 4, 3, 2}
+		}
+		for _, v := range voters {
+			if r.Chance(8) {
+				continue
+			}
+			s.vote("vote:y", sb.pid, v, ctypes.VOTE_TYPE_YES, "y")
+		}
+	}
+	// the block in which they finish: the latest deadline (first-past-the-post proposals may finish at once)
+	var dt int64
+	allFptp := true
+	for _, p := range s.k.GetProposals(s.ctx) {
+		for _, sb := range subs {
+			if p.ID == sb.pid {
+				if d := p.Deadline.UnixNano() - s.now(); d > dt {
+					dt = d
+				}
+				if !s.coms[sb.cid].fptp {
+					allFptp = false
+				}
+			}
+		}
+	}
+	if allFptp && r.Chance(60) {
+		dt = c.Pick(r, []int64{0, 1, 500})
+	} else {
+		dt += c.Pick(r, []int64{0, 0, 0, 1})
+	}
+	s.out.Note(fmt.Sprintf("life-burst-theme-%d", theme))
+	return s.begin(dt)
+}
+
 func runLifeSeq(w *lifeWorld, out *c.Out, r *c.Rng, steps int) {
 	cctx, _ := w.base.CacheContext() // every sequence starts from the same genesis-derived state
-	s := &lifeSeq{w: w, ctx: cctx, k: w.tApp.GetCommitteeKeeper(), coms: map[uint64]comDesc{}, contents: map[uint64]string{}, cast: map[[2]uint64]string{}, out: out, r: r}
+	s := &lifeSeq{w: w, ctx: cctx, k: w.tApp.GetCommitteeKeeper(), coms: map[uint64]comDesc{}, contents: map[uint64]string{},
+		pubs: map[uint64]ctypes.PubProposal{}, cast: map[[2]uint64]string{}, out: out, r: r}
 	s.msg = ckeeper.NewMsgServerImpl(s.k)
 	s.gov = committee.NewProposalHandler(s.k)
 	s.pgov = params.NewParamChangeProposalHandler(w.tApp.GetParamsKeeper())
-	setCom := func(d comDesc) {
-		p := ctypes.MustNewCommitteeChangeProposal("t", "d", s.w.build(d))
-		// closing pending proposals makes their contents leave the store: keep the mirror in step afterwards
-		if s.exec("setcom", "setcom "+d.enc(), func(cx sdk.Context) error { return s.gov(cx, &p) }) == kapp.OK {
-			s.coms[d.id] = d
-		}
-	}
+	s.upk = upgradekeeper.NewKeeper(map[int64]bool{}, w.tApp.GetKVStoreKey(upgradetypes.StoreKey), w.tApp.AppCodec(), "", nil,
+		authtypes.NewModuleAddress(govtypes.ModuleName).String())
 	for id := uint64(1); id <= 3; id++ {
-		setCom(s.genCommittee(id))
+		s.setCom(s.genCommittee(id))
 	}
 	for step := 0; step < steps; step++ {
 		props := s.k.GetProposals(s.ctx)
@@ -362,12 +833,7 @@ func runLifeSeq(w *lifeWorld, out *c.Out, r *c.Rng, steps int) {
 		case x < 4: // submit
 			cid := uint64(r.Intn(4) + 1)
 			if len(s.coms) > 0 && r.Chance(90) {
-				ids := make([]uint64, 0, len(s.coms))
-				for id := range s.coms {
-					ids = append(ids, id)
-				}
-				sort.Slice(ids, func(i, j int) bool { return ids[i] < ids[j] })
-				cid = c.Pick(r, ids)
+				cid = c.Pick(r, s.comIDs())
 			}
 			proposer := r.Intn(nAcc)
 			perm := ""
@@ -377,23 +843,8 @@ func runLifeSeq(w *lifeWorld, out *c.Out, r *c.Rng, steps int) {
 					proposer = c.Pick(r, d.members)
 				}
 			}
-			cont := s.genContent(perm)
-			next, _ := s.k.GetNextProposalID(s.ctx)
-			prop := s.content(cont)
-			op := fmt.Sprintf("submit %d %d %d %s", s.now(), proposer, cid, cont)
-			s.contents[next] = cont
-			cls := s.exec("submit:"+cont[:1], op, func(cx sdk.Context) error {
-				m, err := ctypes.NewMsgSubmitProposal(prop, w.addrs[proposer], cid)
-				if err != nil {
-					return err
-				}
-				_, err = s.msg.SubmitProposal(sdk.WrapSDKContext(cx), m)
-				return err
-			})
-			if cls != kapp.OK {
-				delete(s.contents, next)
-			}
-		case x < 12: // vote
+			s.submit(cid, proposer, s.genContent(perm))
+		case x < 11: // vote
 			pid := uint64(r.Intn(3) + 1)
 			if len(props) > 0 && r.Chance(92) {
 				pid = c.Pick(r, props).ID
@@ -453,14 +904,8 @@ func runLifeSeq(w *lifeWorld, out *c.Out, r *c.Rng, steps int) {
 					sig = "revote:" + s.cast[k] + ">" + vs
 				}
 			}
-			op := fmt.Sprintf("vote %d %d %d %s", s.now(), pid, voter, vs)
-			if s.exec(sig, op, func(cx sdk.Context) error {
-				_, err := s.msg.Vote(sdk.WrapSDKContext(cx), ctypes.NewMsgVote(w.addrs[voter], pid, vt))
-				return err
-			}) == kapp.OK {
-				s.cast[[2]uint64{pid, uint64(voter)}] = vs
-			}
-		case x < 17: // next block: time moves (boundary-biased around a pending deadline), begin block runs
+			s.vote(sig, pid, voter, vt, vs)
+		case x < 15: // next block: time moves (boundary-biased around a pending deadline), begin block runs
 			dt := c.Pick(r, []int64{0, 1, 500, 999, 1000, 1001, int64(time.Second), int64(3 * time.Second)})
 			if len(props) > 0 && r.Chance(30) {
 				d := c.Pick(r, props).Deadline.UnixNano() - s.now()
@@ -469,34 +914,16 @@ func runLifeSeq(w *lifeWorld, out *c.Out, r *c.Rng, steps int) {
 					dt = 0
 				}
 			}
-			s.ctx = s.ctx.WithBlockHeight(s.ctx.BlockHeight() + 1).WithBlockTime(s.ctx.BlockTime().Add(time.Duration(dt)))
-			// begin block: not a message — a panic here halts the chain
-			pre := s.observe(s.ctx)
-			em := sdk.NewEventManager()
-			panicked, msg := c.Recover(func() { committee.BeginBlocker(s.ctx.WithEventManager(em), abci.RequestBeginBlock{}, s.k) })
-			cls := "ok"
-			if panicked {
-				cls = "panic"
-				out.Violation("C17 begin-block panic: " + msg)
+			if s.begin(dt) {
+				return
 			}
-			post := s.observe(s.ctx)
-			ev := closeEvents(em)
-			sig := "begin|" + cls
-			if ev != "-" {
-				oc := map[string]bool{}
-				for _, e := range strings.Split(ev, ",") {
-					oc[e[strings.Index(e, ":")+1:]] = true
-				}
-				sig += "|" + strings.Join(c.SortedKeys(oc), "+")
-			}
-			out.Case(sig, "c17.life", pre.coms, pre.props, pre.votes, pre.next, pre.ext, fmt.Sprintf("begin %d", s.now()), "=>", cls, post.props, post.votes, post.next, post.ext, ev, s.castEnc())
-			out.Note("life-begin-" + cls)
-			if panicked {
+		case x < 17: // several proposals that finish in the same block
+			if s.burst() {
 				return
 			}
 		case x < 18: // governance changes or deletes a committee while proposals are pending
 			if r.Chance(70) {
-				setCom(s.genCommittee(uint64(r.Intn(4) + 1)))
+				s.setCom(s.genCommittee(uint64(r.Intn(4) + 1)))
 			} else {
 				cid := uint64(r.Intn(4) + 1)
 				p := ctypes.NewCommitteeDeleteProposal("t", "d", cid)
@@ -514,13 +941,24 @@ func runLifeSeq(w *lifeWorld, out *c.Out, r *c.Rng, steps int) {
 				})
 				out.Note("life-ext-transfer")
 			}
-		default: // governance changes a parameter under a pending proposal
-			key := c.Pick(r, lifeParamKeys)
-			v := strconv.Itoa(r.Intn(1000) + 1)
-			kapp.Exec(s.ctx, func(cx sdk.Context) error {
-				return s.pgov(cx, paramsproposal.NewParameterChangeProposal("t", "d", []paramsproposal.ParamChange{{Subspace: "cdp", Key: key, Value: `"` + v + `"`}}))
-			})
-			out.Note("life-ext-govparam")
+		default: // governance changes shared state under pending proposals: a parameter, a DebtParam field, the lend position
+			switch r.Intn(4) {
+			case 0, 1:
+				key := c.Pick(r, lifeParamKeys)
+				v := strconv.Itoa(r.Intn(1000) + 1)
+				kapp.Exec(s.ctx, func(cx sdk.Context) error {
+					return s.pgov(cx, paramsproposal.NewParameterChangeProposal("t", "d", []paramsproposal.ParamChange{{Subspace: "cdp", Key: key, Value: `"` + v + `"`}}))
+				})
+				out.Note("life-ext-govparam")
+			case 2:
+				cont := s.content(s.genDebt(c.Pick(r, []string{"floor", "conv"})))
+				cls, _ := kapp.Exec(s.ctx, func(cx sdk.Context) error { return s.ownHandler(cx, cont) })
+				out.Note("life-ext-govdebt-" + string(cls))
+			default:
+				cont := s.content(s.genLend(c.Pick(r, []byte{'D', 'W'})))
+				cls, _ := kapp.Exec(s.ctx, func(cx sdk.Context) error { return s.ownHandler(cx, cont) })
+				out.Note("life-ext-govlend-" + string(cls))
+			}
 		}
 		if len(s.k.GetCommittees(s.ctx)) != len(s.coms) {
 			panic("c17: committee store and mirror disagree")
@@ -533,6 +971,7 @@ func runLifeSeq(w *lifeWorld, out *c.Out, r *c.Rng, steps int) {
 		for id := range s.contents {
 			if !live[id] {
 				delete(s.contents, id)
+				delete(s.pubs, id)
 			}
 		}
 	}
